@@ -20,6 +20,7 @@ import (
 	"path/filepath"
 	"sort"
 	"strings"
+	"syscall"
 	"time"
 
 	"github.com/Shopify/sarama"
@@ -111,6 +112,7 @@ func supervise() {
 			famArgs = append(famArgs, "-workers", fmt.Sprint(n))
 		}
 		cmd := exec.Command(os.Args[0], famArgs...)
+		cmd.SysProcAttr = &syscall.SysProcAttr{Pdeathsig: syscall.SIGKILL}
 		cmd.Env = append(os.Environ(), "C12_FAMILY="+f)
 		var tail tailBuf
 		cmd.Stdout, cmd.Stderr = &tail, &tail
